@@ -24,7 +24,7 @@ open Qryn Qryn.Sql
 structure Ctx where
   fromNs : Int
   toNs : Int
-  zoneOff : Int               -- seconds east of UTC of ctx.From / ctx.To (`Format("2006-01-02")` is zone dependent)
+  zoneOff : Int               -- process zone of ctx.From / ctx.To: unused since the date bounds are rendered with .UTC() (C13 fix); kept so that the harness keeps varying it
   limit : Int
   isCluster : Bool
   attrsTable : String
@@ -191,8 +191,8 @@ def initIndex (c : Ctx) : Sel :=
      .col (.call "any" [.raw "duration"]) "duration", .col (.call "any" [.raw "timestamp_ns"]) "timestamp_ns"]
     (some (.col (.raw c.attrsTable) "traces_idx")) [] none
     (some (and_ [and_ [
-      ge (.raw "date") (.str (Time.formatDate (Int.fdiv c.fromNs 1000000000 + c.zoneOff))),
-      le (.raw "date") (.str (Time.formatDate (Int.fdiv c.toNs 1000000000 + c.zoneOff))),
+      ge (.raw "date") (.str (Time.formatDate (Int.fdiv c.fromNs 1000000000))),
+      le (.raw "date") (.str (Time.formatDate (Int.fdiv c.toNs 1000000000))),
       ge (.raw "traces_idx.timestamp_ns") (.int c.fromNs),
       lt (.raw "traces_idx.timestamp_ns") (.int c.toNs)]]))
     [.raw "trace_id", .raw "span_id"] none [.orderBy (.raw "timestamp_ns") .desc] none
@@ -445,8 +445,8 @@ def selectTags (c : Ctx) (col : String) (main : Sel) : Sel :=
   let pre : Sel := .mk [] false [.raw "span_id"] (some (.withRef (.named "select_spans"))) [] none none [] none [] none
   let res : Sel := (Sel.mk [] false [simpleCol col col] (some (.col (.raw c.attrsDistTable) "traces_idx")) [] none
     (some (and_ [and_ [
-      ge (.raw "date") (.str (Time.formatDate (Int.fdiv c.fromNs 1000000000 + c.zoneOff))),
-      le (.raw "date") (.str (Time.formatDate (Int.fdiv c.toNs 1000000000 + c.zoneOff))),
+      ge (.raw "date") (.str (Time.formatDate (Int.fdiv c.fromNs 1000000000))),
+      le (.raw "date") (.str (Time.formatDate (Int.fdiv c.toNs 1000000000))),
       ge (.raw "traces_idx.timestamp_ns") (.int c.fromNs),
       lt (.raw "traces_idx.timestamp_ns") (.int c.toNs),
       .isIn (.raw "span_id") [.withRef (.named "pre_select_tags")]]]))
